@@ -477,9 +477,14 @@ func (p *parser) resetInsertionMode() {
 			}
 			p.im = p.templateStack.top()
 		case a.Head:
-			// TODO: remove this divergence from the HTML5 spec.
-			//
-			// See https://bugs.chromium.org/p/chromium/issues/detail?id=829668
+			if last {
+				// Fragment case with a <head> context element: the stack of
+				// open elements holds only the root <html>, so the "in head"
+				// mode, which pops the current node expecting it to be the
+				// head element, must not be used.
+				p.im = inBodyIM
+				return
+			}
 			p.im = inHeadIM
 		case a.Body:
 			p.im = inBodyIM
